@@ -2,9 +2,16 @@
 (***************************************************************************)
 (* TLC as the program generator for the Script reference interpreter       *)
 (* (engine E4).  Every group below is a bounded grammar of programs with   *)
-(* boundary-valued pushes; Init picks a program, a flag set and a script   *)
-(* version, Next evaluates the reference interpreter (so that the work is  *)
-(* spread over the TLC workers) and EmitRow prints one row per program.    *)
+(* boundary-valued pushes.  A group operator G<Group>(I) is written once    *)
+(* and used in two modes: Init (I = TRUE) picks only the leading choice     *)
+(* variables of each disjunct (a "shard", ch = <<tag, values>>); Next      *)
+(* (I = FALSE) enumerates the remaining choices of the shard, builds the    *)
+(* program, evaluates the reference interpreter on it and stores the row,   *)
+(* so that the enumeration and the interpretation are spread over the TLC   *)
+(* workers.  EmitRow prints one row per program; NoGap asserts that the     *)
+(* model never needed a byte of a symbolic block it does not know.          *)
+(* MC_<group>.cfg select one group, MC_all.cfg all of them (quick tier),    *)
+(* MC_rest.cfg all but arith and flow (thorough tier runs three processes). *)
 (***************************************************************************)
 EXTENDS Script, VF, IOUtils
 \* "quick" | "thorough", from the environment (SCRIPT_TIER) so that one cfg per group suffices
